@@ -249,7 +249,7 @@ def _ret(kind, v):
         return np.float64(v)
     if kind == "np32":
         return np.float32(v)
-    if kind == "np0d":
+    if kind in ("np0d", "np0d_memo"):
         return np.array(v)          # a 0-dimensional array, e.g. np.squeeze(x.T @ Q @ x)
     if kind == "int":
         return int(round(v)) if math.isfinite(v) else v
@@ -327,6 +327,7 @@ def register_run(rid, spec, record_args=False):
 
 def unregister_run(rid):
     _RUNS.pop(rid, None)
+    _MEMO.pop(rid, None)
 
 
 def _jsonable(x):
@@ -404,7 +405,22 @@ class _MonMixin:
             _RAISE_COUNT[rid] = cnt
             if cnt > ra:
                 raise RuntimeError("evaluation budget exhausted (raised by the harness objective on purpose)")
+        if spec.get("ret") == "np0d_memo" and spec.get("weights") is None:
+            # a memoising objective: the value of a position is computed once, kept as a 0-d array in the user's own cache and
+            # the SAME array object is handed out again when the position comes back (valid use: the library gets a value,
+            # it does not own the object)
+            key = json.dumps(_jsonable(x))
+            with _MEMO_LOCK:
+                memo = _MEMO.setdefault(rid, {})
+                arr = memo.get(key)
+                if arr is None:
+                    arr = memo[key] = eval_spec(spec, x, flat)
+            return arr
         return eval_spec(spec, x, flat)
+
+
+_MEMO = {}
+_MEMO_LOCK = threading.Lock()
 
 
 class MonTask(_MonMixin, Task):
